@@ -302,11 +302,31 @@ def _one_cart(ctx, rng, workdir, verbosity):
             ctx.feature('file_name:' + base)
             p1 = os.path.join(workdir, base + '.p8')
             p2 = os.path.join(workdir, base + '-copy.p8')
+            # what is at the destination before: nothing, an empty file (mkstemp, touch), some other file, an older cart
+            for pth in (p1, p2):
+                if os.path.exists(pth):
+                    os.remove(pth)
+            before = ('nothing', 'empty_file', 'other_file', 'older_cart')[case.setdefault('dest_before', rng.randrange(4))]
+            ctx.feature('destination_before:' + before)
+            if before != 'nothing':
+                with open(p1, 'wb') as fh:
+                    fh.write({'empty_file': b'', 'other_file': b'notes to self\n', 'older_cart': rc.write_p8(carts.random_regions(rng, 'sparse')[0], b'old=1\n', version=8)}[before])
             p8file.to_file(g, p1)
             data1 = open(p1, 'rb').read()
             g2 = p8file.from_file(p1)
             p8file.to_file(g2, p2)
             data2 = open(p2, 'rb').read()
+            if rng.random() < 0.3:
+                # HISTORY: the cart loaded from p1 was saved under another name (above), is edited, and saved under that name again:
+                # the file has to hold the cart as it is now
+                g3 = p8file.from_file(p1)
+                p8file.to_file(g3, p2)
+                edit_cart(rng, g3, ctx)
+                p8file.to_file(g3, p2)
+                ctx.feature('loaded_saved_elsewhere_edited_saved_again')
+                if not compare(ctx, observables(g3), observables(p8file.from_file(p2)), 'loaded from one file, saved to another, edited, saved again -> read', case):
+                    return
+                os.remove(p2)
         else:
             base = carts.cart_basename(rng.randrange(64))
             ctx.feature('file_name:' + base)
@@ -401,6 +421,10 @@ def gates(m, tier):
     for k in ('code_long_strings', 'section_object_of_another_version', 'gfx_object_replaced', 'verbosity_debug', 'verbosity_quiet', 'verbosity_normal', 'saved_edited_saved_again', 'edit_map_lower_half',
               'code_object_of_another_version', 'version0_cart_with_foreign_code_object'):
         if f.get(k, 0) < 10:
+            missed.append('%s seen %d times' % (k, f.get(k, 0)))
+    for k in ('destination_before:nothing', 'destination_before:empty_file', 'destination_before:other_file', 'destination_before:older_cart',
+              'loaded_saved_elsewhere_edited_saved_again'):
+        if f.get(k, 0) < 3:
             missed.append('%s seen %d times' % (k, f.get(k, 0)))
     for how in READ_BACK:
         if f.get('read_back:' + how, 0) < 5:
